@@ -12,7 +12,7 @@ Definition app_op (o : op) : bool :=
   match o with
   | OWrite _ _ | OTruncate _ | OCommitJournal _ | OInvalidateJournal | OWalHeader | OWalTruncate
   | OCommitWal _ _ | OCheckpoint | ODrop | OImport _ _ _ | OCommitJournalFail _ | OWriteJ _ _ => true
-  | OOpen | OSetWriteable _ | OReceive _ | ORetention _ _ _ => false
+  | OOpen | OSetWriteable _ | OReceive _ | ORetention _ _ _ | OZeroFill _ _ => false
   end.
 (* those among them that would change the replicated database if they went through *)
 Definition mutating (o : op) : bool :=
